@@ -778,6 +778,31 @@ def balanced_emission(chk, rid):
   chk.extra['templates_scanned'] = n_t
 
 
+def unnesting_order(chk, rid):
+  """An unnested list may be a sub-query (combine) that reads the element of
+  another unnesting: the FROM items are ordered so that an alias is introduced
+  before it is used.  SortUnnestings must therefore count the variables
+  mentioned INSIDE combines among the dependencies of an unnesting."""
+  repo = chk.repo
+  su = FnView(repo, 'rule_translate.RuleStructure.SortUnnestings')
+  amv = repo.func('rule_translate.AllMentionedVariables')
+  if 'dive_in_combines' not in amv.params:
+    raise AnalysisError('AllMentionedVariables: dive_in_combines parameter not found')
+  pos = amv.params.index('dive_in_combines')
+  calls = [c for n, c in su.all_calls() if call_tail(c) == 'AllMentionedVariables']
+  if not calls:
+    raise AnalysisError('SortUnnestings: dependencies are not computed with AllMentionedVariables')
+  for c in calls:
+    v = kwarg(c, 'dive_in_combines', pos)
+    deep = isinstance(v, ast.Constant) and v.value is True
+    chk.ob(rid, deep, None,
+           'dependencies of an unnesting include variables used inside combines',
+           'SortUnnestings computes the dependencies of an unnested list without '
+           'looking into combines (%s): a sub-query list that reads the element of '
+           'another unnesting can be emitted before it, i.e. an alias is used before '
+           'any enclosing FROM item introduces it' % norm(c, 70), fi=su.fi, node=c)
+
+
 def run(chk):
   chk.assume('A5: dialect objects are reached as `<x>.dialect` or dialects.Get(..)')
   chk.rule('C09-R1', 'dialect interface conformance: every method invoked on '
@@ -809,5 +834,7 @@ def run(chk):
   placeholders(chk, 'C09-R4')
   chk.rule('C09-R5', 'WITH order: a WITH dependency is recorded after its own '
            'dependencies were compiled, once, on every path, and emitted in '
-           'recorded order', min_instances=6)
+           'recorded order; FROM items: an unnested sub-query list comes after '
+           'the unnestings whose elements it reads', min_instances=6)
   with_order(chk, 'C09-R5')
+  unnesting_order(chk, 'C09-R5')
